@@ -14,7 +14,8 @@ class Prop:
     vo_props = ["theories/Props/C03.vo"]
     k_names = ["handshake(device co-simulated against ref == Noise.Model.dev_step against Noise.Paper parties)",
                "wire(device-emitted initiation/response bytes decode with Wire.Codec to the fields ref parsed)"]
-    rule = ("handshake scenarios from one PRNG, 21 templates (UAPI update_only for an unknown key, then restart and an initiation "
+    rule = ("handshake scenarios from one PRNG, 22 templates (private-key change scheduled inside the handshake worker between "
+            "ConsumeMessageInitiation and SendHandshakeResponse via the device.Logger callback; UAPI update_only for an unknown key, then restart and an initiation "
             "by that key; cookie expiry: authentic cookie reply, 50 s / 121 s pass via "
             "VerifShiftPeerCookie, then initiations and responses; the last three: private-key rotation with configured peers followed "
             "by handshakes in both roles under the new identity and refused initiations for the old one; peers configured before any "
@@ -48,7 +49,7 @@ class Prop:
         return meta, files
 
     def generate(self, seed, tier, mult):
-        n = (84 if tier == "quick" else 966) * mult
+        n = (88 if tier == "quick" else 968) * mult
         shards = 8 if tier == "quick" else 32
         exe = vlib.build_go("c03")
         rc, o = vlib.sh([exe, "-seed", str(seed), "-n", str(n), "-shards", str(shards), "-out", self.dir,
@@ -60,7 +61,8 @@ class Prop:
         self.extra_coverage = {"handshakes": meta["handshakes"], "slow_scenarios_discarded": meta["slow_discarded"],
                                "completed": sum(c["completed"] for c in meta["cases"]),
                                "refused": sum(c["refused"] for c in meta["cases"]),
-                               "data_packets_delivered": sum(c["data_ok"] for c in meta["cases"])}
+                               "data_packets_delivered": sum(c["data_ok"] for c in meta["cases"]),
+                               "key_changes_inside_handshake_worker": sum(c.get("parked", 0) for c in meta["cases"])}
         return files, meta["cases"]
 
     @staticmethod
@@ -81,13 +83,13 @@ class Prop:
             f["party"] = "%s/%s" % (pk.get("kind"), pk.get("psk"))
             f["flags"] = "+".join(x for x in (stp.get("resp_key") and "resp_" + stp["resp_key"], stp.get("mac_key") and "mac_" + stp["mac_key"],
                                               stp.get("ts"), stp.get("which"), stp.get("kind")) if x)
-            f["clause"] = Prop._clause(f["kind"], f["what"], stp.get("op"), o)
+            f["clause"] = Prop._clause(f["kind"], f["what"], stp.get("op"), o, [x.get("event", "") for x in obs[:pos]])
             f["event"] = o.get("event")
             f["observed"] = {"outs": o.get("outs"), "ref": o.get("ref"), "peers": o.get("peers")}
         return f
 
     @staticmethod
-    def _clause(kind, what, op, o):
+    def _clause(kind, what, op, o, prior=()):
         """Name the clause of the property the observation at the failing step contradicts (best effort)."""
         if what == "wire-layout":
             return "layout"
@@ -99,8 +101,12 @@ class Prop:
                     return "size"
                 if mac1 != d[1]:
                     return "mac1-not-under-addressee-key"
-                if mac2 != 1:
+                if mac2 == 1 and Prop._cookie_held(prior, d[1]):
+                    return "mac2-not-under-held-cookie"
+                if mac2 != 1 and not Prop._cookie_held(prior, d[1]):
                     return "mac2-not-zero-absent-cookie"
+                if mac2 == 0:
+                    return "mac2-not-under-held-cookie"
                 if d[0] == 1 and d[6] != d[1]:
                     return "initiation-does-not-open-at-addressed-peer"
             if d and d[0] == 0:
@@ -108,6 +114,9 @@ class Prop:
             if d and d[0] == 4 and d[3] == 0:
                 return "transport-under-keys-nobody-holds"
         has = lambda k: any(d and d[0] == k for d in outs)
+        if op == "rinitkey":
+            return ("session-under-new-identity-for-initiation-consumed-under-old-key" if has(2)
+                    else "key-change-during-initiation")
         if op == "rinit":
             if has(2):
                 return "response-to-initiation"
@@ -119,6 +128,20 @@ class Prop:
         if op in ("tun", "kick"):
             return "device-sends" if (has(1) or has(4)) else "device-silent"
         return op or "?"
+
+    @staticmethod
+    def _cookie_held(prior, peer):
+        """Best effort: was a well-formed cookie reply (sealed, peer's key, MAC1 of the message it answers) the last
+        cookie-relevant event for this peer, with no 121 s ageing since?"""
+        held = False
+        for ev in prior:
+            w = ev.split()
+            if w[0] == "cookie" and len(w) == 6 and int(w[1]) == peer:
+                if w[4] == "0" and w[2] == w[3]:
+                    held = True
+            elif w[0] == "age" and int(w[1]) > 120:
+                held = False
+        return held
 
     def _fails(self, outputs, shards, files, cases):
         res = []
